@@ -11,6 +11,7 @@ CONSTANTS
   SweepMax = 5
   BuildLen = 8
   SweepOnly = TRUE
+  SharedOnly = FALSE
   DirtyOnUnset = {"above", "fork", "below"}
   UnsetBoundaryLeaves = TRUE
   CopyOnResolve = TRUE
